@@ -1296,6 +1296,12 @@ class Interp:
                         raise PyRaise(KeyError(args[0]))
                     return args[1] if len(args) > 1 else None
                 return slf.pop(x) if fn.__name__ == "pop" else slf[x]
+            if isinstance(slf, dict) and fn.__name__ == "get" and args and isinstance(self.unbase(args[0]), SStr) and all(isinstance(x, str) for x in slf.keys()):
+                # d.get(<symbolic text>) on a dictionary with a concrete spine of text keys: case split over the keys
+                for x in list(slf.keys()):
+                    if self.truth(self.compare("Eq", x, args[0])):
+                        return slf[x]
+                return args[1] if len(args) > 1 else kwargs.get("default")
             if isinstance(slf, dict) and fn.__name__ in ("get", "pop", "setdefault", "__getitem__") and args and not self.concrete(args[0]) and not isinstance(args[0], IDENTITY_KEYS):
                 raise Unsupported("symbolic key into a concrete dict")
             try:
